@@ -51,6 +51,16 @@ def runtime_exec(rng, big=False):
     rng.shuffle(cells)
     for (t, c) in cells:
         L.append("look %s %d %d %d" % (rng.choice(HOWS), t, c, rng.randrange(MEMBERS[c])))
+    # the same Type object constructed again in place with another instance list: every cached answer must be forgotten
+    if not big:
+        for t in ts:
+            n = rng.choice([0, 2, 6, 20])
+            L.append("rert %d %s" % (t, " ".join(str(rng.randrange(NC)) for _ in range(n))))
+            L.append("decl %d" % t)
+        cells = [(t, c) for t in ts for c in range(NC)]
+        rng.shuffle(cells)
+        for (t, c) in cells:
+            L.append("look %s %d %d %d" % (rng.choice(HOWS), t, c, rng.randrange(MEMBERS[c])))
     for _ in range(6):
         a, b = rng.randrange(NB), rng.randrange(NB)
         L.append("cast %d %d" % (a, b if rng.random() < 0.7 else a))
